@@ -176,7 +176,7 @@ fn one_voice(ctx: &mut Ctx, env: &Env, rng: &mut Rng, base: &Engine, rv: &RefVoi
 pub fn run(ctx: &mut Ctx) {
     let env = Env::new(ctx);
     let bundled = env.load_bundled();
-    let n = ctx.n(24, 1500);
+    let n = ctx.n(64, 1500);
     ctx.run_cases("bundled", n, false, |ctx, rng, _| {
         one_voice(ctx, &env, rng, &bundled, &env.bundled_ref, "bundled");
     });
@@ -196,7 +196,7 @@ pub fn run(ctx: &mut Ctx) {
             Err(e) => ctx.violation("perturbed-voice-does-not-load", J::from(format!("{}", e))),
         }
     });
-    let n = ctx.n(60, 4000);
+    let n = ctx.n(200, 4000);
     ctx.run_cases("synthetic", n, false, |ctx, rng, _| {
         let o = VoiceOpts::random(rng);
         match load_synthetic(&env, &o, rng) {
@@ -206,7 +206,7 @@ pub fn run(ctx: &mut Ctx) {
     });
 
     // transparent voices: the waveform is the excitation itself
-    let n = ctx.n(40, 2000);
+    let n = ctx.n(160, 2000);
     ctx.run_cases("transparent", n, false, |ctx, rng, _| {
         let mut o = VoiceOpts::random(rng);
         o.transparent = true;
